@@ -59,7 +59,33 @@ def SPEC : List (String × List (String × Nat × Nat)) :=
       ("version_info.file_os", 56, 4), ("version_info.file_type", 60, 4), ("version_info.file_subtype", 64, 4),
       ("version_info.file_date_hi", 68, 4), ("version_info.file_date_lo", 72, 4),
       ("cv_record.data_size", 76, 4), ("cv_record.rva", 80, 4), ("misc_record.data_size", 84, 4), ("misc_record.rva", 88, 4),
-      ("reserved0[0]", 92, 4), ("reserved0[1]", 96, 4), ("reserved1[0]", 100, 4), ("reserved1[1]", 104, 4)])]
+      ("reserved0[0]", 92, 4), ("reserved0[1]", 96, 4), ("reserved1[0]", 100, 4), ("reserved1[1]", 104, 4)]),
+   ("MINIDUMP_HANDLE_OBJECT_INFORMATION", [("next_info_rva", 0, 4), ("info_type", 4, 4), ("size_of_info", 8, 4)]),
+   ("MINIDUMP_HANDLE_DESCRIPTOR", [("handle", 0, 8), ("type_name_rva", 8, 4), ("object_name_rva", 12, 4), ("attributes", 16, 4),
+      ("granted_access", 20, 4), ("handle_count", 24, 4), ("pointer_count", 28, 4)]),
+   ("MINIDUMP_HANDLE_DESCRIPTOR_2", [("handle", 0, 8), ("type_name_rva", 8, 4), ("object_name_rva", 12, 4), ("attributes", 16, 4),
+      ("granted_access", 20, 4), ("handle_count", 24, 4), ("pointer_count", 28, 4), ("object_info_rva", 32, 4), ("reserved0", 36, 4)]),
+   -- Crashpad's minidump extensions (crashpad/minidump/minidump_extensions.h)
+   ("MINIDUMP_SIMPLE_STRING_DICTIONARY_ENTRY", [("key", 0, 4), ("value", 4, 4)]),
+   ("MINIDUMP_ANNOTATION", [("name", 0, 4), ("ty", 4, 2), ("_reserved", 6, 2), ("value", 8, 4)]),
+   ("MINIDUMP_MODULE_CRASHPAD_INFO_LINK", [("minidump_module_list_index", 0, 4), ("location.data_size", 4, 4),
+      ("location.rva", 8, 4)]),
+   ("MINIDUMP_MODULE_CRASHPAD_INFO", [("version", 0, 4), ("list_annotations.data_size", 4, 4), ("list_annotations.rva", 8, 4),
+      ("simple_annotations.data_size", 12, 4), ("simple_annotations.rva", 16, 4), ("annotation_objects.data_size", 20, 4),
+      ("annotation_objects.rva", 24, 4)]),
+   ("MINIDUMP_CRASHPAD_INFO", [("version", 0, 4),
+      ("report_id.data1", 4, 4), ("report_id.data2", 8, 2), ("report_id.data3", 10, 2), ("report_id.data4[0]", 12, 1),
+      ("report_id.data4[1]", 13, 1), ("report_id.data4[2]", 14, 1), ("report_id.data4[3]", 15, 1), ("report_id.data4[4]", 16, 1),
+      ("report_id.data4[5]", 17, 1), ("report_id.data4[6]", 18, 1), ("report_id.data4[7]", 19, 1),
+      ("client_id.data1", 20, 4), ("client_id.data2", 24, 2), ("client_id.data3", 26, 2), ("client_id.data4[0]", 28, 1),
+      ("client_id.data4[1]", 29, 1), ("client_id.data4[2]", 30, 1), ("client_id.data4[3]", 31, 1), ("client_id.data4[4]", 32, 1),
+      ("client_id.data4[5]", 33, 1), ("client_id.data4[6]", 34, 1), ("client_id.data4[7]", 35, 1),
+      ("simple_annotations.data_size", 36, 4), ("simple_annotations.rva", 40, 4), ("module_list.data_size", 44, 4),
+      ("module_list.rva", 48, 4)])]
+
+/-- the handle-data stream header (generated by layouts_c02.py) -/
+def SPEC_HANDLE_DATA_STREAM : List (String × Nat × Nat) :=
+  [("size_of_header", 0, 4), ("size_of_descriptor", 4, 4), ("number_of_descriptors", 8, 4), ("reserved", 12, 4)]
 
 /-- the exception stream: thread id, alignment, the 152-byte `MINIDUMP_EXCEPTION`, the context -/
 def SPEC_EXCEPTION : List (String × Nat × Nat) :=
@@ -86,8 +112,9 @@ theorem layout_matches_spec :
          | some l => withOffsets 0 l == spec
          | none => false)) = true ∧
     withOffsets 0 MINIDUMP_EXCEPTION_STREAM = SPEC_EXCEPTION ∧
-    withOffsets 0 MINIDUMP_SYSTEM_INFO = SPEC_SYSTEM_INFO := by
-  refine ⟨by decide, by decide, by decide⟩
+    withOffsets 0 MINIDUMP_SYSTEM_INFO = SPEC_SYSTEM_INFO ∧
+    withOffsets 0 MINIDUMP_HANDLE_DATA_STREAM = SPEC_HANDLE_DATA_STREAM := by
+  refine ⟨by decide +kernel, by decide, by decide, by decide⟩
 
 /-- the documented `MINIDUMP_MISC_INFO_5` (minidumpapiset.h; `TIME_ZONE_INFORMATION`, `SYSTEMTIME`,
     `XSTATE_CONFIG_FEATURE_MSC_INFO` inlined): (field, offset, width of one element, elements) -/
@@ -180,7 +207,12 @@ theorem record_sizes :
     Layout.size MINIDUMP_MODULE = 108 ∧ Layout.size MINIDUMP_MEMORY_DESCRIPTOR = 16 ∧
     Layout.size MINIDUMP_MEMORY_DESCRIPTOR64 = 16 ∧ Layout.size MINIDUMP_MEMORY_INFO = 48 ∧
     Layout.size MINIDUMP_THREAD_NAME = 12 ∧ Layout.size MINIDUMP_UNLOADED_MODULE = 24 ∧
-    Layout.size MINIDUMP_EXCEPTION_STREAM = 168 ∧ Layout.size SYSTEM_INFO_LAYOUT = 56 := by decide
+    Layout.size MINIDUMP_EXCEPTION_STREAM = 168 ∧ Layout.size SYSTEM_INFO_LAYOUT = 56 ∧
+    Layout.size MINIDUMP_HANDLE_DATA_STREAM = 16 ∧ Layout.size MINIDUMP_HANDLE_DESCRIPTOR = 32 ∧
+    Layout.size MINIDUMP_HANDLE_DESCRIPTOR_2 = 40 ∧ Layout.size MINIDUMP_HANDLE_OBJECT_INFORMATION = 12 ∧
+    Layout.size MINIDUMP_CRASHPAD_INFO = 52 ∧ Layout.size MINIDUMP_MODULE_CRASHPAD_INFO = 28 ∧
+    Layout.size MINIDUMP_MODULE_CRASHPAD_INFO_LINK = 12 ∧ Layout.size MINIDUMP_SIMPLE_STRING_DICTIONARY_ENTRY = 8 ∧
+    Layout.size MINIDUMP_ANNOTATION = 12 := by decide
 
 /-! ## 1. integers, records, record lists read back (either byte order, every offset) -/
 
